@@ -72,6 +72,19 @@ pub fn concurent_immix_mutator_prepare<VM: VMBinding>(
     .unwrap();
     immix_allocator.reset();
 
+    // Mutators keep allocating after the InitialMark pause.  Objects allocated during concurrent
+    // marking must go to lines that the allocator marks eagerly, so the allocator of the
+    // non-moving Immix space must not keep its thread-local lines across this pause either.
+    #[cfg(not(any(
+        feature = "immortal_as_nonmoving",
+        feature = "marksweep_as_nonmoving"
+    )))]
+    unsafe {
+        mutator.allocator_impl_mut_for_semantic::<ImmixAllocator<VM>>(AllocationSemantics::NonMoving)
+    }
+    .reset();
+    crate::plan::mutator_context::common_prepare_func(mutator, _tls);
+
     // Activate SATB
     if current_pause == Pause::InitialMark {
         debug!("Activate SATB barrier active for {:?}", mutator as *mut _);
